@@ -42,7 +42,7 @@ def strip_ansi(s):
 
 
 class Result:
-    __slots__ = ("rc", "sig", "stdout", "stderr", "timeout", "san", "wall")
+    __slots__ = ("rc", "sig", "stdout", "stderr", "timeout", "san", "wall", "qasm")
 
     def __init__(self):
         self.rc = None
